@@ -17,6 +17,33 @@ async fn pair() -> (TcpStream, TcpStream) {
     (c.unwrap(), s.unwrap().0)
 }
 
+/// write `inp` in fragments cut at `cuts` (pauses in between so that each fragment is a TCP segment of its own), then half-close
+async fn write_split(c: &mut TcpStream, inp: &[u8], cuts: &[usize]) -> Result<(), String> {
+    let _ = c.set_nodelay(true);
+    let mut at = 0;
+    for &k in cuts {
+        let k = k.min(inp.len());
+        if k > at {
+            c.write_all(&inp[at..k]).await.map_err(|e| e.to_string())?;
+            c.flush().await.map_err(|e| e.to_string())?;
+            tokio::time::sleep(Duration::from_millis(25)).await;
+            at = k;
+        }
+    }
+    c.write_all(&inp[at..]).await.map_err(|e| e.to_string())?;
+    c.shutdown().await.map_err(|e| e.to_string())
+}
+
+fn parse_cuts(t: &str) -> Vec<usize> {
+    t.strip_prefix("split=").map(|x| x.split(',').filter_map(|k| k.parse().ok()).collect()).unwrap_or_default()
+}
+
+fn gen_cuts(rng: &mut Rng, len: usize) -> String {
+    if len < 2 || !rng.chance(1, 4) { return String::new(); }
+    let a = rng.range(1, len as u64 - 1) as usize;
+    if rng.chance(1, 3) { let b = rng.range(1, len as u64 - 1) as usize; format!(" split={},{}", a.min(b), a.max(b)) } else { format!(" split={a}") }
+}
+
 fn gen_request(rng: &mut Rng) -> Vec<u8> {
     let cmd = match rng.below(6) { 0 => 2, 1 => 3, 2 => rng.next() as u8, _ => 1 };
     let ver = if rng.chance(1, 12) { rng.next() as u8 } else { 5 };
@@ -63,6 +90,10 @@ impl Group for SocksGroup {
         for c in 0..=255u8 { v.push(Case { lines: vec![format!("socks req {}", hex(&[5, c, 0, 1, 10, 0, 0, 1, 0, 80]))] }); }
         for t in 0..=255u8 { v.push(Case { lines: vec![format!("socks req {}", hex(&[5, 1, 0, t, 3, 97, 46, 98, 1, 187, 9, 9, 9, 9, 9, 9, 9, 9, 9, 9, 9, 9, 9, 9]))] }); }
         for ver in [0u8, 4, 6, 255] { v.push(Case { lines: vec![format!("socks req {}", hex(&[ver, 1, 0, 1, 10, 0, 0, 1, 0, 80]))] }); v.push(Case { lines: vec![format!("socks greet {}", hex(&[ver, 1, 0]))] }); }
+        // segmentation: a greeting / request cut at every position (each fragment a TCP segment of its own)
+        for k in 1..5 { v.push(Case { lines: vec![format!("socks greet 0503010200 split={k}")] }); v.push(Case { lines: vec![format!("socks greet 05020100 split={k}")] }); }
+        v.push(Case { lines: vec!["socks greet 0503010200 split=2,4".into()] });
+        for k in 1..14 { v.push(Case { lines: vec![format!("socks req 050100030561622e636401bb split={k}")] }); }
         // the whole front-end: every command code class, target up/down, early bytes, regression witness D14 (BIND)
         for (cmd, up) in [(1u8, "up"), (1, "down"), (2, "up"), (3, "up"), (0, "up"), (9, "up")] {
             v.push(Case { lines: vec![format!("socks conn {cmd} {up} 050100 -")] });
@@ -76,8 +107,8 @@ impl Group for SocksGroup {
 
     fn generate(&self, rng: &mut Rng, tier: &str, _idx: u64) -> Case {
         let k = rng.below(100);
-        let line = if k < 45 { format!("socks greet {}", hex(&gen_greeting(rng))) }
-            else if k < 97 || tier != "thorough" && k < 99 { format!("socks req {}", hex(&gen_request(rng))) }
+        let line = if k < 45 { let g = gen_greeting(rng); format!("socks greet {}{}", hex(&g), gen_cuts(rng, g.len())) }
+            else if k < 97 || tier != "thorough" && k < 99 { let r = gen_request(rng); format!("socks req {}{}", hex(&r), gen_cuts(rng, r.len())) }
             else {
                 let cmd = match rng.below(4) { 0 => 2, 1 => rng.next() as u8, _ => 1 };
                 let g = if rng.chance(3, 4) { vec![5u8, 1, 0] } else { gen_greeting(rng) };
@@ -110,12 +141,14 @@ async fn exec_line(t: &[String]) -> Result<(String, Vec<OracleFail>), String> {
     let s: Vec<&str> = t.iter().map(|x| x.as_str()).collect();
     let mut fails = vec![];
     match s.as_slice() {
-        ["socks", "greet", hx] => {
+        ["socks", "greet", hx] | ["socks", "greet", hx, _] => {
             let inp = unhex(hx).ok_or("hex")?;
+            let cuts = parse_cuts(s.get(3).copied().unwrap_or(""));
             let (mut c, mut srv) = pair().await;
-            c.write_all(&inp).await.map_err(|e| e.to_string())?;
-            c.shutdown().await.map_err(|e| e.to_string())?;
+            let inp2 = inp.clone();
+            let wr = tokio::spawn(async move { let _ = write_split(&mut c, &inp2, &cuts).await; c });
             let r = tokio::time::timeout(GUARD, anytls_rs::client::socks5::verif_socks5::authenticate(&mut srv)).await.map_err(|_| "guard")?;
+            let mut c = wr.await.map_err(|e| e.to_string())?;
             drop(srv);
             let mut reply = vec![];
             let _ = tokio::time::timeout(GUARD, c.read_to_end(&mut reply)).await;
@@ -126,12 +159,14 @@ async fn exec_line(t: &[String]) -> Result<(String, Vec<OracleFail>), String> {
             }
             Ok((format!("{} reply={}", if r.is_ok() { "ok" } else { "err" }, hex(&reply)), fails))
         }
-        ["socks", "req", hx] => {
+        ["socks", "req", hx] | ["socks", "req", hx, _] => {
             let inp = unhex(hx).ok_or("hex")?;
+            let cuts = parse_cuts(s.get(3).copied().unwrap_or(""));
             let (mut c, mut srv) = pair().await;
-            c.write_all(&inp).await.map_err(|e| e.to_string())?;
-            c.shutdown().await.map_err(|e| e.to_string())?;
+            let inp2 = inp.clone();
+            let wr = tokio::spawn(async move { let _ = write_split(&mut c, &inp2, &cuts).await; c });
             let r = tokio::time::timeout(GUARD, anytls_rs::client::socks5::verif_socks5::read_connection_request(&mut srv)).await.map_err(|_| "guard")?;
+            let _c = wr.await.map_err(|e| e.to_string())?;
             match r {
                 Ok((addr, port, cmd)) => {
                     let atyp = inp[3];
